@@ -89,15 +89,19 @@ def _check(prop, tier, seed, replay, work, t0):
         if tier == "quick":
             rnd = random.Random(seed)
             rest = [x for x in lines if 'ok\\":true' not in x]
+            # every unroutable unit of ONE command (the admission of a single multi-key command is where key shapes meet),
+            # a seeded sample of the two-command ones
+            single = [x for x in rest if x.count('\\"kind\\"') == 1]
+            rest = [x for x in rest if x.count('\\"kind\\"') != 1]
             rnd.shuffle(rest)
-            lines = ok_lines + rest[:1200]
+            lines = ok_lines + single + rest[:1000]
         cases = os.path.join(work, "cases.txt")
         open(cases, "w").write("\n".join(lines) + "\n")
         drive(drv, work, "cases", ["-cases", cases, "-id-base", "2000000", "-seed", str(seed)], stats)
         n, units = (48, 5) if tier == "quick" else (400, 8)
         drive(drv, work, "refuse", ["-cluster", "-refuse", "-id-base", "3000000", "-seed", str(seed), "-n", str(n * 2), "-max-units", str(units)], stats)
         drive(drv, work, "routable", ["-cluster", "-id-base", "4000000", "-seed", str(seed + 77), "-n", str(n // 2), "-max-units", str(units), "-crash-stride", "1000000"], stats)
-        expl = ("%d of the %d units enumerated by UnitRoute.tla (1-2 commands x 1-2 keys over 9 brace / non-ASCII key shapes; plain, key-counted (EVAL numkeys ... arg, the argument looking like a key of another slot) and opaque commands) each replayed "
+        expl = ("%d of the %d units enumerated by UnitRoute.tla (1-2 commands x 1-2 keys over 11 brace / non-ASCII key shapes; plain, key-counted (EVAL numkeys ... arg, the argument looking like a key of another slot) and opaque commands) each replayed "
                 "after one routable unit; generated streams (<= %d units, tags with UTF-8 and non-UTF-8 bytes, six brace arrangements per tag) with and "
                 "without an unroutable last unit of 8 kinds; 3 replay modes; two-node cluster fake that checks CROSSSLOT itself" % (len(lines), druns[0]["units"], units))
         notcov = ["transactions reduced by filters (no filter is configured in these runs)",
